@@ -48,6 +48,13 @@ def run(chk: Check) -> None:
             CTL, FaultState.FAULT if k % 2 else FaultState.RESTORE, FaultType.BATTERY_LOW, FaultDeviceClass.ACTUATOR,
             device_id="04:111111", domain_idx="01", _log_idx=min(idx, 0x3E), timestamp=stamp(k))
         payload = cmd.payload[:4] + f"{idx:02X}" + cmd.payload[6:]  # (the constructor is a test helper limited to 0x3E)
+        # (an entry's fault type / domain / device class need not be one the library has a name for: it is an entry all the same)
+        if k % 7 == 3:
+            payload = payload[:8] + "02" + payload[10:]
+        if k % 11 == 5:
+            payload = payload[:10] + "FB" + payload[12:]
+        if k % 13 == 6:
+            payload = payload[:12] + "03" + payload[14:]
         if verb == " I":
             return f" I --- {CTL} --:------ {CTL} 0418 022 {payload}"
         return f"RP --- {CTL} {GWY} --:------ 0418 022 {payload}"
